@@ -146,8 +146,11 @@ def unit_scale(am, units, q):
     """size of the file unit of quantity q in working units, from the table the writer itself uses (tolerance only)"""
     if q is None or units == 'lj':
         return 1.0
-    key = (units, q)
+    import numericalunits as nu
+    key = (units, q, nu.m, nu.kg, nu.s, nu.C)           # the working units are process-global and change between cases
     if key not in _UCACHE:
+        if len(_UCACHE) > 4000:
+            _UCACHE.clear()
         import atomman.unitconvert as uc
         d = am.lammps.style.unit(units)
         if q == 'volume':
@@ -158,6 +161,114 @@ def unit_scale(am, units, q):
             v = float(uc.set_in_units(1.0, d[q]))
         _UCACHE[key] = abs(v)
     return _UCACHE[key]
+
+
+# ----------------------------------------------------------------------------- working-unit configurations (round 4)
+
+def _wfmt(fmt):
+    """float format for numbers that a file carries in WORKING units (POSCAR, table columns without unit, `units lj`): the
+    fixed-point formats presume angstrom-scale numbers (see gens_c08.FORMATS); when one angstrom is not within [0.05, 20]
+    working units the exponent format with the same number of digits is used instead (a cell of 5e-10 printed with 8
+    decimals is a singular cell: outside what the chosen format can represent, not a round-trip failure)"""
+    if fmt[-1] != 'f':
+        return fmt
+    import numericalunits as nu
+    return fmt if 0.05 <= nu.angstrom <= 20.0 else fmt[:-1] + 'e'
+
+
+class _Ux:
+    """the working-unit plan of one judged dump + load: `switch` is called by the judge between the dump and the loads"""
+    def __init__(self, uc, R):
+        self.uc, self.R, self.crossed = uc, R, False
+
+    def switch(self, S, eligible, xunits):
+        """loads under another configuration than the dump: only when the file names the unit of every dimensional column
+        (`eligible`); xunits: {name: unit string} of the declared-dimensionless float properties that the file carries in an
+        explicit unit (their number changes by size_R(unit) / size_W(unit)).  Returns the snapshot to compare with."""
+        if self.R is None or not eligible or 'raw' not in S:
+            return S
+        sizes = {k: G.own_unit_size(u) for k, u in xunits.items()}
+        if any(v is None for v in sizes.values()):
+            return S
+        _apply(self.uc, self.R)
+        self.crossed = True
+        return G.physical(S['raw'], {k: G.own_unit_size(u) / sizes[k] for k, u in xunits.items()})
+
+
+def _cfg_text(cfg):
+    if cfg['kind'] == 'named':
+        return 'reset_units(%s)' % ', '.join('%s=%r' % kv for kv in cfg['units'].items())
+    return 'reset_units(seed=%r)' % ('SI' if cfg['kind'] == 'SI' else cfg['seed'])
+
+
+def _unit_labels(plan, crossed):
+    import numericalunits as nu
+    A = nu.angstrom
+    labs = {'units', 'units_' + plan['W']['kind'],
+            'units_A_same' if A == 1.0 else 'units_A_gt1' if A > 1.0 else 'units_A_ge1e-3' if A >= 1e-3 else 'units_A_lt1e-3'}
+    if plan['pre'] is not None:
+        labs.add('units_pre')
+        labs.add('units_pre_default' if plan['pre'] == G.DEFAULT_CFG else 'units_pre_other')
+    if crossed:
+        labs.add('units_cross')
+    return labs
+
+
+_TRAIL = []          # the last other-than-default configurations this process has been put under (diagnostics only)
+
+
+def _apply(uc, cfg):
+    G.apply_units(uc, cfg)
+    if cfg != G.DEFAULT_CFG and cfg not in _TRAIL[-2:]:
+        _TRAIL.append(cfg)
+        del _TRAIL[:-2]
+
+
+def _trail_note(own=()):
+    """a failure may need what EARLIER cases did to the process (e.g. a conversion factor remembered from another
+    configuration): say so, since the replay of this case alone starts in a fresh process"""
+    other = [c for c in _TRAIL if c not in own]
+    if not other:
+        return ''
+    return ' [earlier cases of this process ran dumps + loads under %s: if the replay of this case alone holds, the failure ' \
+           'needs that history]' % ' and '.join(_cfg_text(c) for c in other)
+
+
+def _with_units(case, run):
+    """run(am, case, ux) under the unit plan of the case: the same judged dump + load first under plan['pre'] (same process,
+    same oracles), then the dump under plan['W'] and the loads under plan['R']; the default working units are ALWAYS
+    restored (the cases of one shard share a process)"""
+    import atomman as am
+    import atomman.unitconvert as uc
+    plan = case.get('units')
+    if plan is None:
+        try:
+            return run(am, case, None)
+        except Violation as v:
+            raise Violation(v.detail + _trail_note(), key=v.key) from None
+    own = [plan[k] for k in ('pre', 'W', 'R') if plan[k] is not None]
+    try:
+        if plan['pre'] is not None:
+            _apply(uc, plan['pre'])
+            try:
+                run(am, case, _Ux(uc, None))
+            except Violation as v:
+                raise Violation('%s [under %s]%s' % (v.detail, _cfg_text(plan['pre']), _trail_note(own)), key=v.key) from None
+        _apply(uc, plan['W'])
+        ux = _Ux(uc, plan['R'])
+        try:
+            labels = set(run(am, case, ux))
+        except Violation as v:
+            raise Violation('%s [dump under %s%s%s]%s' % (
+                v.detail, _cfg_text(plan['W']), ', loads under ' + _cfg_text(plan['R']) if ux.crossed else '',
+                ', after the same dump + load under %s in the same process' % _cfg_text(plan['pre']) if plan['pre'] is not None else '',
+                _trail_note(own)), key=v.key) from None
+        if ux.crossed:
+            _apply(uc, plan['W'])
+        labels |= _unit_labels(plan, ux.crossed)
+        return labels
+    finally:
+        G.restore_units(uc)
 
 
 # ----------------------------------------------------------------------------- sources and targets
@@ -363,7 +474,8 @@ def data_cases(draw):
             'opt': {'style': style, 'units': units, 'fmt': fmt, 'safecopy': draw(_bool), 'target': draw(TARGETS),
                     'give_style': draw(_bool)},
             'pert': {'keys': draw(_keys12), 'keys2': draw(_keys12), 'shuffle': draw(_bool), 'comments': draw(_bool),
-                     'blank': draw(_bool), 'title': draw(_bool), 'source': draw(SOURCES)}}
+                     'blank': draw(_bool), 'title': draw(_bool), 'source': draw(SOURCES)},
+            'units': draw(G.S_PLAN)}
 
 
 def _section_rows(lines, keyword, n):
@@ -467,20 +579,27 @@ def check_wrapped_cell(loaded, S, T, what):
 
 
 def oracle_data(case):
-    import atomman as am
+    return _with_units(case, _run_data)
+
+
+def _run_data(am, case, ux):
     sysd = case['sys']
     S = G.snapshot(sysd)
+    if ux is not None:
+        S = G.physical(S)
     tmp = _Tmp()
     try:
-        return judge_data(am, G.make_system(am, S), S, case['opt'], case['pert'], tmp, cell_labels(S, sysd))
+        return judge_data(am, G.make_system(am, S), S, case['opt'], case['pert'], tmp, cell_labels(S, sysd), ux)
     finally:
         tmp.close()
 
 
-def judge_data(am, system, S, opt, pert, tmp, labels):
+def judge_data(am, system, S, opt, pert, tmp, labels, ux=None):
     """one dump('atom_data') of `system` (whose state is the snapshot S) + load, judged against S"""
     n = len(S['s'])
     style, units, fmt = opt['style'], opt['units'], opt['fmt']
+    if units == 'lj':
+        fmt = _wfmt(fmt)
     labels.update({'style_' + style.split()[0], 'units_' + units, 'fmt_' + fmt[-1], 'src_' + pert['source']})
     cols, vcols = G.style_props(style)
     carried = list(cols)
@@ -500,6 +619,9 @@ def judge_data(am, system, S, opt, pert, tmp, labels):
                 raise Violation("dump('atom_data', atom_style=%r, units='lj') with velocities raises KeyError('None'): the lj "
                                 "'ang-mom'/'ang-vel' units are the strings 'None*None*None' and '1/None'" % style, key=K_LJ_ANG) from None
             raise
+        if ux is not None:
+            # a data file names no unit, but `units` fixes the unit of every dimensional column (lj: none at all)
+            S = ux.switch(S, units != 'lj', {})
         kw = dict(pbc=list(S['pbc']), units=units)
         if S['symbols'] is not None:
             kw['symbols'] = list(S['symbols'])
@@ -674,7 +796,8 @@ def dump_cases(draw):
     return {'sys': sysd,
             'opt': {'units': units, 'fmt': fmt, 'target': draw(TARGETS), 'prop_name': prop_name,
                     'use_prop_info': draw(_bool), 'cols': cols},
-            'pert': {'keys': draw(_keys12), 'shuffle': draw(_bool), 'source': draw(SOURCES)}}
+            'pert': {'keys': draw(_keys12), 'shuffle': draw(_bool), 'source': draw(SOURCES)},
+            'units': draw(G.S_PLAN)}
 
 
 def perturb_dump(text, n, pert):
@@ -686,20 +809,43 @@ def perturb_dump(text, n, pert):
 
 
 def oracle_dump(case):
-    import atomman as am
+    return _with_units(case, _run_dump)
+
+
+def _run_dump(am, case, ux):
     sysd = case['sys']
     S = G.snapshot(sysd)
+    if ux is not None:
+        S = G.physical(S)
     tmp = _Tmp()
     try:
-        return judge_dump(am, G.make_system(am, S), S, case['opt'], case['pert'], tmp, cell_labels(S, sysd))
+        return judge_dump(am, G.make_system(am, S), S, case['opt'], case['pert'], tmp, cell_labels(S, sysd), ux)
     finally:
         tmp.close()
 
 
-def judge_dump(am, system, S, opt, pert, tmp, labels):
+def _cross_eligible(S, truth):
+    """(does the description `truth` name a unit for every dimensional float column?, {name: unit} of the declared-
+    dimensionless float properties written in an explicit unit)"""
+    ok, xunits = True, {}
+    for e in truth:
+        nm, u = e['name'], e['unit']
+        if nm in POSVARS:
+            ok = ok and u is not None
+        elif nm in S['props'] and S['meta'][nm]['dtype'] == 'f':
+            if S['meta'][nm]['q'] is not None:
+                ok = ok and u is not None and u != 'scaled'
+            elif u is not None and u != 'scaled':
+                xunits[nm] = u
+    return ok, xunits
+
+
+def judge_dump(am, system, S, opt, pert, tmp, labels, ux=None):
     """one dump('atom_dump') of `system` (whose state is the snapshot S) + load, judged against S"""
     n = len(S['s'])
     units, fmt = opt['units'], opt['fmt']
+    if units == 'lj':
+        fmt = _wfmt(fmt)
     labels.update({'units_' + units, 'fmt_' + fmt[-1], 'src_' + pert['source']})
     prop_name = opt['prop_name']
     cols = opt.get('cols') if prop_name is not None else None
@@ -722,6 +868,10 @@ def judge_dump(am, system, S, opt, pert, tmp, labels):
                 raise Violation("dump('atom_dump', lammps_units='lj') raises TypeError: %s (torque unit built from None)" % e, key=K_LJ_TORQUE) from None
             raise
         prop_info = rest[0]
+        if ux is not None:
+            # without explicit descriptions every standard quantity is carried in the unit of `lammps_units` (lj: none)
+            ok, xunits = _cross_eligible(S, truth) if truth is not None else (True, {})
+            S = ux.switch(S, ok and units != 'lj', xunits)
         written = list(prop_name) if prop_name is not None else (['atom_id', 'atype', 'pos'] + [k for k in S['props'] if k != 'atom_id'])
         nonstd_rank = any(len(S['meta'][k]['shape']) >= 1 and S['meta'][k]['q'] is None
                           for k in written if k in S['props'])
@@ -900,7 +1050,8 @@ def table_cases(draw):
             'opt': {'entries': entries, 'fmt': draw(st.sampled_from(['%.13f', '%.8f', '%.5e', '%.16e'])),
                     'header': draw(_bool), 'target': draw(TARGETS), 'cols': cols},
             'pert': {'keys': draw(_keys12), 'shuffle': draw(_bool), 'comments': draw(_bool), 'blank': draw(_bool),
-                     'source': draw(SOURCES)}}
+                     'source': draw(SOURCES)},
+            'units': draw(G.S_PLAN)}
 
 
 def perturb_table(text, n, pert, header, can_shuffle):
@@ -920,21 +1071,26 @@ def perturb_table(text, n, pert, header, can_shuffle):
 
 
 def oracle_table(case):
-    import atomman as am
+    return _with_units(case, _run_table)
+
+
+def _run_table(am, case, ux):
     sysd = case['sys']
     S = G.snapshot(sysd)
+    if ux is not None:
+        S = G.physical(S)
     tmp = _Tmp()
     try:
-        return judge_table(am, G.make_system(am, S), S, case['opt'], case['pert'], tmp, cell_labels(S, sysd))
+        return judge_table(am, G.make_system(am, S), S, case['opt'], case['pert'], tmp, cell_labels(S, sysd), ux)
     finally:
         tmp.close()
 
 
-def judge_table(am, system, S, opt, pert, tmp, labels):
+def judge_table(am, system, S, opt, pert, tmp, labels, ux=None):
     """one dump('table') of `system` (whose state is the snapshot S) + load, judged against S"""
     import atomman.unitconvert as uc
     n = len(S['s'])
-    fmt = opt['fmt']
+    fmt = _wfmt(opt['fmt'])
     labels.update({'fmt_' + fmt[-1], 'src_' + pert['source']})
     if True:
         kwd = dict(float_format=fmt, header=bool(opt['header']), return_prop_info=True)
@@ -965,6 +1121,10 @@ def judge_table(am, system, S, opt, pert, tmp, labels):
             written = ['atype', 'pos'] + list(S['props'])
         text, rest = _dump(system, 'table', opt['target'], tmp, **kwd)
         prop_info = rest[0]
+        if ux is not None and entries is not None:
+            # a table whose dimensional columns all carry an explicit unit (or are box-relative) holds the physical system
+            ok, xunits = _cross_eligible(S, [{'name': e['name'], 'unit': e['unit']} for e in entries])
+            S = ux.switch(S, ok, xunits)
         box = am.Box(vects=S['V'].copy(), origin=S['o'].copy())
         kw = dict(box=box)
         if truth is not None and cols['lvia'] != 'returned':
@@ -1086,7 +1246,8 @@ def poscar_cases(draw):
             'opt': {'coordstyle': draw(st.sampled_from(COORDSTYLES)), 'scale': scale, 'fmt': draw(st.sampled_from(POSCAR_FORMATS)),
                     'header': draw(st.sampled_from(['', 'Al fcc', 'round trip # 1', '8 atoms of something'])),
                     'give_symbols': give_symbols, 'target': draw(TARGETS)},
-            'pert': {'trail': draw(_bool), 'indent': draw(_bool), 'eof': draw(_bool), 'source': draw(SOURCES)}}
+            'pert': {'trail': draw(_bool), 'indent': draw(_bool), 'eof': draw(_bool), 'source': draw(SOURCES)},
+            'units': draw(G.S_PLAN_NOCROSS)}
 
 
 def perturb_poscar(text, n, pert, has_symbols):
@@ -1122,9 +1283,14 @@ def _match_multiset(got, exp, tol):
 
 
 def oracle_poscar(case):
-    import atomman as am
+    return _with_units(case, _run_poscar)
+
+
+def _run_poscar(am, case, ux):
     sysd = case['sys']
     S = G.snapshot(sysd)
+    if ux is not None:
+        S = G.physical(S)
     tmp = _Tmp()
     try:
         return judge_poscar(am, G.make_system(am, S), S, case['opt'], case['pert'], tmp, cell_labels(S, sysd))
@@ -1135,7 +1301,7 @@ def oracle_poscar(case):
 def judge_poscar(am, system, S, opt, pert, tmp, labels):
     """one dump('poscar') of `system` (whose state is the snapshot S) + load, judged against S"""
     n = len(S['s'])
-    fmt, scale = opt['fmt'], float(opt['scale'])
+    fmt, scale = _wfmt(opt['fmt']), float(opt['scale'])
     cart = opt['coordstyle'][0] in 'cCkK'
     labels.update({'fmt_' + fmt[-1], 'src_' + pert['source'], 'cartesian' if cart else 'direct'})
     if True:
@@ -1291,7 +1457,13 @@ def history_cases(draw):
         if k == 0 and kind in ('box', 'pos', 'pbc', 'read', 'poscar') and draw(_bool):
             kind = 'data'
         steps.append(_step(draw, kind, sysd, n))
-    return {'sys': sysd, 'steps': steps}
+    # working-unit plan of the whole history (drawn last) and, in half of the planned histories, a change of the working
+    # units in the middle of it: the object is re-expressed in the new units through the public setters or re-built
+    plan = draw(G.S_PLAN_NOCROSS)
+    mid, cfg, at, how = draw(_bool), draw(G.S_CFG), draw(st.integers(1, 4)), draw(st.sampled_from(['setters', 'rebuild']))
+    if plan is not None and mid:
+        steps.insert(1 + (at - 1) % (len(steps) - 1), {'op': 'units', 'cfg': G._other_than(cfg, plan['W']), 'how': how})
+    return {'sys': sysd, 'steps': steps, 'units': plan}
 
 
 def _with_state(S, V, o, pos):
@@ -1342,9 +1514,44 @@ def _after_inplace_wrap(system, S, what):
 
 
 def oracle_history(case):
+    """the history under its unit plan: the first dump of the history is first run on a fresh object and judged under
+    plan['pre'], then the whole history runs under plan['W'] (with 'units' steps changing the configuration on the way);
+    the default working units are always restored"""
     import atomman as am
+    import atomman.unitconvert as uc
+    plan = case.get('units')
+    try:
+        if plan is None:
+            try:
+                return _history(am, uc, case, False)
+            except Violation as v:
+                raise Violation(v.detail + _trail_note([s_['cfg'] for s_ in case['steps'] if s_['op'] == 'units']), key=v.key) from None
+        own = [plan[k] for k in ('pre', 'W') if plan[k] is not None] + [s_['cfg'] for s_ in case['steps'] if s_['op'] == 'units']
+        if plan['pre'] is not None:
+            head = [st_ for st_ in case['steps'] if st_['op'] in ('data', 'dump', 'table', 'poscar')][:1]
+            _apply(uc, plan['pre'])
+            try:
+                _history(am, uc, {'sys': case['sys'], 'steps': head}, True)
+            except Violation as v:
+                raise Violation('%s [fresh object under %s]%s' % (v.detail, _cfg_text(plan['pre']), _trail_note(own)), key=v.key) from None
+        _apply(uc, plan['W'])
+        ulabs = _unit_labels(plan, False)
+        try:
+            labels = _history(am, uc, case, True)
+        except Violation as v:
+            raise Violation('%s [history under %s%s]%s' % (
+                v.detail, _cfg_text(plan['W']), ', after its first dump + load on a fresh object under %s in the same process'
+                % _cfg_text(plan['pre']) if plan['pre'] is not None else '', _trail_note(own)), key=v.key) from None
+        return labels | ulabs
+    finally:
+        G.restore_units(uc)
+
+
+def _history(am, uc, case, phys):
     sysd = case['sys']
     S = G.snapshot(sysd)
+    if phys:
+        S = G.physical(S)
     base = cell_labels(S, sysd)
     labels = set()
     n = len(S['s'])
@@ -1352,6 +1559,7 @@ def oracle_history(case):
     done = []
     wrapped_inplace = extended_inplace = modified = False
     ndumps = 0
+    dumps_before_units = None
     try:
         system = G.make_system(am, S)
         for step in case['steps']:
@@ -1367,6 +1575,8 @@ def oracle_history(case):
                     needs_rel = op == 'data' or 'scaled' in sub or 'scaled_cols' in sub or 'direct' in sub
                     if ndumps > 1:
                         labels.add('redump')
+                    if dumps_before_units:
+                        labels.add('redump_after_units_step')
                     if wrapped_inplace and needs_rel:
                         labels.add('rel_after_inplace_wrap')
                     if extended_inplace and needs_rel:
@@ -1394,7 +1604,8 @@ def oracle_history(case):
                         done.append(what)
                 elif op == 'box':
                     V = np.array(step['f'], dtype=float)[:, None] * S['V']
-                    o = S['o'] + np.array(step['shift'], dtype=float)
+                    # the shift is a length in angstrom (a plain number without a unit plan)
+                    o = S['o'] + np.array(step['shift'], dtype=float) * (G.unit_factors()['length'] if phys else 1.0)
                     how = step['how']
                     if how == 'attr' and not step['scale']:
                         system.box.vects = V.tolist()
@@ -1428,6 +1639,36 @@ def oracle_history(case):
                     S = _adopt(system, S, S['V'], S['o'], pos, txt + hist)
                     modified = True
                     labels.add('pos_modified')
+                    done.append(txt)
+                elif op == 'units':
+                    # the working units change: the same physical system is re-expressed in the new ones
+                    f0 = G.unit_factors()
+                    _apply(uc, step['cfg'])
+                    f1 = G.unit_factors()
+                    rL = f1['length'] / f0['length']
+                    V, o, pos = S['V'] * rL, S['o'] * rL, S['pos'] * rL
+                    props = {}
+                    for k, v in S['props'].items():
+                        m = S['meta'][k]
+                        props[k] = v * (f1[m['q']] / f0[m['q']]) if m['dtype'] == 'f' and m['q'] is not None else v
+                    S = dict(S)
+                    S['props'] = props
+                    txt = _cfg_text(step['cfg'])
+                    if step['how'] == 'rebuild':
+                        S = _with_state(S, V, o, pos)
+                        system = G.make_system(am, S)
+                        txt += ' + object re-built in the new units'
+                    else:
+                        system.box_set(vects=V.copy(), origin=o.copy(), scale=True)
+                        for k, v in props.items():
+                            if S['meta'][k]['dtype'] == 'f' and S['meta'][k]['q'] is not None:
+                                system.atoms_prop(k, value=v.copy())
+                        txt += ' + box_set(vects=, origin=, scale=True), atoms_prop(<each dimensional property>, value=)'
+                        S = _adopt(system, S, V, o, pos, txt + hist)
+                    if dumps_before_units is None:
+                        dumps_before_units = ndumps
+                    labels.add('units_step')
+                    labels.add('units_step_' + step['how'])
                     done.append(txt)
                 elif op == 'pbc':
                     system.pbc = list(step['pbc'])
